@@ -242,7 +242,7 @@ impl Context {
         &&& self.node_typed(self.nodes()[r])
         &&& self.ty(r) == self.node_ty(self.nodes()[r])
         &&& self.den(r) == self.node_den(self.nodes()[r])
-        &&& forall|i: int| 0 <= i < kids(self.nodes()[r]).len() ==> (#[trigger] kids(self.nodes()[r])[i]).0 < r.0
+        &&& forall|i: int| 0 <= i < kids(self.nodes()[r]).len() ==> (#[trigger] kids(self.nodes()[r])[i]).0 < r.0 && self.has(kids(self.nodes()[r])[i])
     }
 
     /// every node is well-typed and denotes what its operator says.  Opaque: the quantifier is only opened by
@@ -262,6 +262,7 @@ impl Context {
     /// representation invariant of the context as seen through its API
     pub open spec fn wf(&self) -> bool {
         &&& self.all_nodes_ok()
+        &&& self.nodes().dom().finite()
         // hash-consing: one reference per node (ref_of is the inverse of nodes)
         &&& forall|r: ExprRef| #[trigger] self.has(r) ==> self.ref_of(self.nodes()[r]) == r
         // value interning: one literal handle per (width, value)
